@@ -49,7 +49,11 @@ def gen_scenario(rng, thorough):
     # the last task of some scenarios is a status code with a long duration, so that it arrives last
     if ntasks and rng.random() < 0.35:
         ops.insert(len(ops) - 1, ['S', 'C', rng.choice([10, 20]), 40, 1])
-    return {'workers': workers, 'ops': ops, 'timeout': 25 if not thorough else 60}
+    # time limit after which a run counts as blocked: every raising task ends its worker, and the parent notices a dead worker only
+    # at its next one-second poll of the result queue, so the limit grows with the number of raising tasks (a fixed 60 s was
+    # exceeded by a 140-task scenario on one worker that was still collecting: false alarm of the thorough tier)
+    n_raise = sum(1 for op in ops if op[0] == 'S' and op[1] == 'E')
+    return {'workers': workers, 'ops': ops, 'timeout': (25 if not thorough else 60) + 2.0 * n_raise + 0.1 * len(ops)}
 
 
 def run_scenario(sc):
